@@ -34,3 +34,25 @@ Proof.
 Qed.
 Theorem code_response_decoder_is_dec_rsp : forall bs, run_rsp_dec gen_rsp_dec_prog bs = dec_rsp bs.
 Proof. intros bs. apply run_rsp_dec_is_dec_rsp; [exact gen_rsp_dec_prog_is_model|apply gen_dec_keys_are_bytes]. Qed.
+
+(* ---- the exception-response helpers (ExceptionResponse::try_from, ResponsePdu::try_from, encode_exception_response_pdu,
+   response_result_pdu_size, encode_response_result_pdu) have the shapes the model's dec_exc / dec_rsp_pdu / enc_exc / rr_size_chk /
+   enc_rr state, with these constants: exception function codes start at 0x80 (decode guard, decode offset, dispatch limit, encode
+   assertion, encode offset) and an exception PDU has 2 bytes ---- *)
+Theorem gen_exception_constants_are_model : gen_EXC = (0x80, 0x80, 0x80, 0x80, 0x80, 2).
+Proof. reflexivity. Qed.
+Theorem model_exception_decoding_uses_them : forall f c rest,
+  dec_exc (f :: c :: rest) = (if f <? fst (fst (fst (fst (fst gen_EXC)))) then Fail KInvalidData
+                              else Val {| exr_function := fc_new (f - snd (fst (fst (fst (fst gen_EXC))))); exr_exception := ex_new c |})
+  /\ dec_rsp_pdu (f :: c :: rest) = (if f <? snd (fst (fst (fst gen_EXC))) then r <- dec_rsp (f :: c :: rest) ;; Val (RROk r)
+                                     else e <- dec_exc (f :: c :: rest) ;; Val (RRExc e)).
+Proof. intros. split; reflexivity. Qed.
+Theorem model_exception_encoding_uses_them : forall m e,
+  rr_size_chk (RRExc e) = Val (snd gen_EXC)
+  /\ enc_rr m (RRExc e) = enc_exc m e
+  /\ (fc_value (exr_function e) < snd (fst (fst gen_EXC)) ->
+      enc_exc m e = Val [fc_value (exr_function e) + snd (fst gen_EXC); ex_value (exr_exception e)]).
+Proof.
+  intros m e. repeat split. intros H. unfold enc_exc. cbn in H.
+  destruct (N.leb_spec 128 (fc_value (exr_function e))) as [Hge|_]; [exfalso; apply (N.lt_irrefl 128); eapply N.le_lt_trans; eassumption|reflexivity].
+Qed.
